@@ -101,7 +101,8 @@ func runC16(c *Ctx) {
 			if iff, ok := lp.body.Instrs[len(lp.body.Instrs)-1].(*ssa.If); ok {
 				_ = iff
 				tb := lp.body.Succs[0]
-				if tb == store.Block() || blockReaches(tb, store.Block()) {
+				// feasibly: a hit may set a flag, leave the loop and return on the flag
+				if tb == store.Block() || feasibleReach(lp.body, tb, nil, store.Block()) {
 					hitEdgeReturns = false
 				}
 			} else {
@@ -147,7 +148,7 @@ func runC16(c *Ctx) {
 				return
 			}
 			fa, ok := st.Addr.(*ssa.FieldAddr)
-			if !ok || fieldOf(fa).Name() != "bindTimer" {
+			if !ok || nm(fieldOf(fa)) != "bindTimer" {
 				return
 			}
 			ac, _ := callOf(st.Val)
@@ -159,7 +160,7 @@ func runC16(c *Ctx) {
 				return
 			}
 			_, df, isL := fieldLoad(ac.Call.Args[0])
-			if !isL || df.Name() != "tcpConnectionBindTimeout" {
+			if !isL || nm(df) != "tcpConnectionBindTimeout" {
 				whyArm = "the timer is armed with " + w.key(ac.Call.Args[0]) + ", not m.tcpConnectionBindTimeout"
 				return
 			}
@@ -176,7 +177,7 @@ func runC16(c *Ctx) {
 			cl := w.closureBody(mc)
 			rm := w.Func("allocation", "Allocation", "RemoveTCPConnection")
 			okCl := false
-			w.eachInstr(cl, func(in2 ssa.Instruction) {
+			w.eachInstrDeep(cl, func(in2 ssa.Instruction) {
 				call, ok := in2.(*ssa.Call)
 				if !ok || call.Call.StaticCallee() != rm {
 					return
@@ -218,7 +219,7 @@ func runC16(c *Ctx) {
 					return false
 				}
 				fa, ok := st.Addr.(*ssa.FieldAddr)
-				return ok && fieldOf(fa).Name() == "bindTimer"
+				return ok && nm(fieldOf(fa)) == "bindTimer"
 			}) {
 				badRet = "the success return at " + w.instrPos(r) + " can be reached without a bind timer"
 			}
@@ -263,31 +264,51 @@ func runC16(c *Ctx) {
 		inGo := 0
 		// the handler's body: itself and its single-call-site helpers; the pipe's goroutines
 		// are function literals of those
+		// goroutines started (with `go`) from the handler or its helpers: a function literal or
+		// a named function; everything else reachable as a single-call-site helper is body
+		goFns := map[*ssa.Function]bool{}
+		for _, f := range w.helpersOf(h) {
+			w.eachInstr(f, func(in ssa.Instruction) {
+				g, ok := in.(*ssa.Go)
+				if !ok {
+					return
+				}
+				if mc, isMC := g.Call.Value.(*ssa.MakeClosure); isMC {
+					goFns[w.closureBody(mc)] = true
+				} else if cal := g.Call.StaticCallee(); cal != nil && w.IsMod[cal] {
+					goFns[cal] = true
+				}
+			})
+		}
 		var bodies []*ssa.Function
 		for _, f := range w.helpersOf(h) {
-			if f.Parent() == nil {
+			inGoroutine := false
+			for g := f; g != nil; {
+				if goFns[g] {
+					inGoroutine = true
+					break
+				}
+				if g.Parent() != nil {
+					g = g.Parent()
+					continue
+				}
+				site := w.singleSiteCI(g)
+				if site == nil {
+					break
+				}
+				g = site.Parent()
+			}
+			if !inGoroutine {
 				bodies = append(bodies, f)
 			}
 		}
-		for _, body := range bodies {
-			for _, f := range body.AnonFuncs {
-				started := false
-				w.eachInstr(body, func(in ssa.Instruction) {
-					if g, ok := in.(*ssa.Go); ok {
-						if mc, isMC := g.Call.Value.(*ssa.MakeClosure); isMC && mc.Fn == ssa.Value(f) {
-							started = true
-						}
-					}
-				})
-				w.eachInstr(f, func(in ssa.Instruction) {
-					if call, ok := in.(*ssa.Call); ok && call.Call.StaticCallee() != nil && call.Call.StaticCallee().String() == "io.Copy" {
-						copies = append(copies, cp{connRole(w, call.Call.Args[0], tcpGet), connRole(w, call.Call.Args[1], tcpGet)})
-						if started {
-							inGo++
-						}
-					}
-				})
-			}
+		for _, gf := range sortedFns(goFns) {
+			w.eachInstrDeep(gf, func(in ssa.Instruction) {
+				if call, ok := in.(*ssa.Call); ok && call.Call.StaticCallee() != nil && call.Call.StaticCallee().String() == "io.Copy" {
+					copies = append(copies, cp{connRole(w, call.Call.Args[0], tcpGet), connRole(w, call.Call.Args[1], tcpGet)})
+					inGo++
+				}
+			})
 		}
 		c.Anchor("C16.6", "two directions")
 		if len(copies) == 2 && inGo == 2 && copies[0].dst == copies[1].src && copies[0].src == copies[1].dst && copies[0].dst != copies[0].src &&
@@ -370,30 +391,81 @@ func runC16(c *Ctx) {
 	// ---- C16.8
 	c.Rule("C16.8", "duplicate detection covers every registered connection: in isDupeTCPConnection every iteration over allocation.tcpConnections reaches the comparison of that connection's remote IP and port with the candidate (or returns true); nothing else can skip an element", 1)
 	{
-		fn := w.Func("allocation", "Manager", "isDupeTCPConnection")
+		// the duplicate test is located by what it does, not by its name: a loop over an
+		// allocation's tcpConnections (the field, or a parameter that only ever receives the
+		// field) whose body compares remote IPs
 		c.Anchor("C16.8", "isDupeTCPConnection")
-		loops := w.rangeLoops(fn, func(coll ssa.Value) bool { _, f, ok := fieldLoad(coll); return ok && f == tc })
-		if len(loops) == 0 {
-			c.Bad("C16.8", fname(fn), "loop", w.pos(fn.Pos()), "no iteration over tcpConnections")
-		} else {
-			lp := loops[0]
-			ok, trail := mustPassBefore(lp.body, func(in ssa.Instruction) bool {
-				call, isC := in.(*ssa.Call)
-				return isC && call.Call.StaticCallee() != nil && call.Call.StaticCallee().String() == "(net.IP).Equal"
-			}, func(b *ssa.BasicBlock) bool { return b == lp.header })
-			if !ok {
-				// paths that end in a return (the "cannot tell: treat as duplicate" branch) are fine
-				ok, trail = mustPassBeforeX(lp.body, func(in ssa.Instruction) bool {
-					call, isC := in.(*ssa.Call)
-					return isC && call.Call.StaticCallee() != nil && call.Call.StaticCallee().String() == "(net.IP).Equal"
-				}, func(b *ssa.BasicBlock) bool { return b == lp.header }, true)
+		isIPEqual := func(in ssa.Instruction) bool {
+			call, isC := in.(*ssa.Call)
+			return isC && call.Call.StaticCallee() != nil && call.Call.StaticCallee().String() == "(net.IP).Equal"
+		}
+		nLoops := 0
+		allocPath := w.tpkg("allocation").Path()
+		for _, fn := range w.ModFns {
+			if fnPkgPath(fn) != allocPath {
+				continue
 			}
-			// paths that return true before comparing (the !ok type assertion branch) are fine: they end in a return, not at the header
-			if ok {
-				c.OK("C16.8", fname(fn), "loop", w.pos(fn.Pos()), "every iteration compares the element's remote address (or returns)")
-			} else {
-				c.Bad("C16.8", fname(fn), "loop", w.pos(fn.Pos()), "some registered connections are skipped by the duplicate test (e.g. bound ones): a second Connect to the same peer would not be answered 446", trail...)
+			isTC := func(coll ssa.Value) bool {
+				coll = w.resolveLoad(coll)
+				if _, f, ok := fieldLoad(coll); ok && f == tc {
+					return true
+				}
+				if p, ok := coll.(*ssa.Parameter); ok {
+					sites := w.callsTo(p.Parent())
+					if len(sites) == 0 {
+						return false
+					}
+					for _, cs := range sites {
+						i := paramIndex(p)
+						if i < 0 || i >= len(cs.Common().Args) {
+							return false
+						}
+						if _, f, ok := fieldLoad(w.resolveLoad(cs.Common().Args[i])); !ok || f != tc {
+							return false
+						}
+					}
+					return true
+				}
+				return false
 			}
+			for _, lp := range w.rangeLoops(fn, isTC) {
+				// is it the duplicate test? its body reaches an IP comparison
+				has := false
+				seen := map[*ssa.BasicBlock]bool{}
+				var walk func(b *ssa.BasicBlock)
+				walk = func(b *ssa.BasicBlock) {
+					if seen[b] || b == lp.header {
+						return
+					}
+					seen[b] = true
+					for _, in := range b.Instrs {
+						if isIPEqual(in) {
+							has = true
+						}
+					}
+					for _, s := range b.Succs {
+						walk(s)
+					}
+				}
+				walk(lp.body)
+				if !has {
+					continue
+				}
+				nLoops++
+				ok, trail := mustPassBefore(lp.body, isIPEqual, func(b *ssa.BasicBlock) bool { return b == lp.header })
+				if !ok {
+					// paths that end in a return (the "cannot tell: treat as duplicate" branch) are fine
+					ok, trail = mustPassBeforeX(lp.body, isIPEqual, func(b *ssa.BasicBlock) bool { return b == lp.header }, true)
+				}
+				if ok {
+					c.OK("C16.8", fname(fn), "loop", w.pos(fn.Pos()), "every iteration compares the element's remote address (or returns)")
+				} else {
+					c.Bad("C16.8", fname(fn), "loop", w.pos(fn.Pos()), "some registered connections are skipped by the duplicate test (e.g. bound ones): a second Connect to the same peer would not be answered 446", trail...)
+				}
+			}
+		}
+		if nLoops == 0 {
+			c.Bad("C16.8", "allocation", "loop", "-", "no loop over tcpConnections comparing remote addresses is left: the duplicate test is gone")
 		}
 	}
 }
@@ -458,7 +530,7 @@ func ruleSingleUseOwner(c *Ctx, rule string) {
 				}
 				if f.Op == "true" && !f.Truth {
 					if call, _ := callOf(f.X); call != nil && call.Call.StaticCallee() != nil && call.Call.StaticCallee().String() == "(*sync/atomic.Bool).Swap" {
-						if b, fl, ok := fieldLoadAddr(call.Call.Args[0]); ok && fl.Name() == "isBound" && w.sameKey(b, v) {
+						if b, fl, ok := fieldLoadAddr(call.Call.Args[0]); ok && nm(fl) == "isBound" && w.sameKey(b, v) {
 							if k, isC := call.Call.Args[1].(*ssa.Const); isC && k.Value != nil && k.Value.String() == "true" {
 								okSwap = true
 							}
